@@ -1,0 +1,41 @@
+//go:build verif
+
+// Package vhook provides verification hooks. They are active only with build tag "verif"; without the tag every
+// function is an empty inlinable stub and Enabled is a false constant, so call sites compile to nothing.
+//
+// Hooks never compute state for a model: E reports what the calling goroutine has just done, G may block the calling
+// goroutine until a harness lets it continue, K may terminate the process (crash-point injection).
+package vhook
+
+// Enabled tells whether the hooks are compiled in
+const Enabled = true
+
+// Emit is installed by a verification harness; nil otherwise
+var Emit func(ev string, kv ...any)
+
+// E reports an event
+func E(ev string, kv ...any) {
+	if f := Emit; f != nil {
+		f(ev, kv...)
+	}
+}
+
+// Gate is installed by a verification harness; a gate may block the calling goroutine
+var Gate func(point string)
+
+// G passes a gate
+func G(point string) {
+	if f := Gate; f != nil {
+		f(point)
+	}
+}
+
+// Kill is installed by a verification harness (in a victim process); a kill point may exit the process
+var Kill func(point string)
+
+// K passes a kill point
+func K(point string) {
+	if f := Kill; f != nil {
+		f(point)
+	}
+}
